@@ -101,12 +101,12 @@ func ruleNumericHelpers(c *Ctx) {
 		key := "IntegerSquareroot.newton"
 		newton := func() string {
 			if param == nil || loop == nil || loop.Cond == nil || loop.Init != nil || loop.Post != nil {
-				return "no `for <cond> { … }` loop over a single parameter"
+				return "?" + "no `for <cond> { … }` loop over a single parameter"
 			}
 			parents := parentMap(fd.Body)
 			blk, _ := parents[loop].(*ast.BlockStmt)
 			if blk == nil {
-				return "loop not in a block"
+				return "?" + "loop not in a block"
 			}
 			var pre, post []ast.Stmt
 			for i, st := range blk.List {
@@ -120,20 +120,20 @@ func ruleNumericHelpers(c *Ctx) {
 				}
 			}
 			if len(post) == 0 {
-				return "nothing is returned after the loop"
+				return "?" + "nothing is returned after the loop"
 			}
 			ret, ok := post[0].(*ast.ReturnStmt)
 			if !ok || len(ret.Results) != 1 {
-				return "the loop is not followed by the return of the root"
+				return "?" + "the loop is not followed by the return of the root"
 			}
 			xid, ok := ast.Unparen(ret.Results[0]).(*ast.Ident)
 			if !ok {
-				return "the result is not a variable"
+				return "?" + "the result is not a variable"
 			}
 			x := info.ObjectOf(xid)
 			env0, _, ok := symRun(info, pre, symEnv{})
 			if !ok {
-				return "the statements before the loop are not plain assignments"
+				return "?" + "the statements before the loop are not plain assignments"
 			}
 			// the other variable: assigned in the loop, not x
 			var y types.Object
@@ -142,7 +142,7 @@ func ruleNumericHelpers(c *Ctx) {
 					for _, l := range as.Lhs {
 						if id, ok := ast.Unparen(l).(*ast.Ident); ok && info.ObjectOf(id) != x {
 							if y != nil && y != info.ObjectOf(id) {
-								return "more than two variables change in the loop"
+								return "?" + "more than two variables change in the loop"
 							}
 							y = info.ObjectOf(id)
 						}
@@ -150,7 +150,7 @@ func ruleNumericHelpers(c *Ctx) {
 				}
 			}
 			if y == nil {
-				return "the loop updates one variable only"
+				return "?" + "the loop updates one variable only"
 			}
 			n := polyAtom(param.Name)
 			half := func(p Poly) Poly { return polyDiv(p, polyConst(2)) }
@@ -163,7 +163,7 @@ func ruleNumericHelpers(c *Ctx) {
 			x0, ok1 := poly(env0[x])
 			y0, ok2 := poly(env0[y])
 			if !ok1 || !ok2 {
-				return "x and y are not both initialised before the loop"
+				return "?" + "x and y are not both initialised before the loop"
 			}
 			if !polyEq(x0, n) {
 				return "the iteration starts at x = " + x0.String() + ", not at n"
@@ -173,13 +173,13 @@ func ruleNumericHelpers(c *Ctx) {
 			}
 			env1, _, ok := symRun(info, loop.Body.List, symEnv{})
 			if !ok {
-				return "the loop body is not a sequence of plain assignments"
+				return "?" + "the loop body is not a sequence of plain assignments"
 			}
 			xa, ya := polyAtom(x.Name()), polyAtom(y.Name())
 			x1, ok1 := poly(env1[x])
 			y1, ok2 := poly(env1[y])
 			if !ok1 || !ok2 {
-				return "the loop does not update both x and y"
+				return "?" + "the loop does not update both x and y"
 			}
 			if !polyEq(x1, ya) {
 				return "the step sets x to " + x1.String() + ", not to y"
@@ -196,6 +196,9 @@ func ruleNumericHelpers(c *Ctx) {
 		}
 		if why := newton(); why == "" {
 			c.ok(key, fd.Pos(), "x=n; y=(x+1)/2; while y<x { x, y = y, (y+n/y)/2 }")
+		} else if strings.HasPrefix(why, "?") {
+			// not written as `init; for y < x { step }; return x`: nothing is read off it
+			c.unm(key, fd.Pos(), "IntegerSquareroot is not written in the form this rule reads (%s)", why[1:])
 		} else {
 			c.bad(key, fd.Pos(), "IntegerSquareroot is not the spec's Newton iteration: %s", why)
 		}
@@ -268,7 +271,7 @@ func ruleNumericHelpers(c *Ctx) {
 				}
 			}
 		}
-		var probs []string
+		var probs, unread []string
 		if len(params) != 5 {
 			probs = append(probs, "expected (leaf, branch, depth, index, root)")
 		} else {
@@ -317,9 +320,14 @@ func ruleNumericHelpers(c *Ctx) {
 				if be == nil || !countingLoop(info, parents, be) {
 					probs = append(probs, "the loop is not `for i := 0; i < depth; i++`")
 				} else {
-					iv = info.ObjectOf(ast.Unparen(be.X).(*ast.Ident))
-					if !isObj(be.Y, depth) {
-						probs = append(probs, "the loop runs to `"+types.ExprString(be.Y)+"`, not to depth")
+					// i < depth, or depth > i
+					ivE, bound := be.X, be.Y
+					if be.Op == token.GTR {
+						ivE, bound = be.Y, be.X
+					}
+					iv = info.ObjectOf(ast.Unparen(ivE).(*ast.Ident))
+					if !isObj(bound, depth) {
+						probs = append(probs, "the loop runs to `"+types.ExprString(bound)+"`, not to depth")
 					}
 				}
 				var is *ast.IfStmt
@@ -335,7 +343,31 @@ func ruleNumericHelpers(c *Ctx) {
 				} else {
 					// the condition as a function of bit i of the index
 					bitAtom := polyBitOp(token.AND, polyConst(1), polyAtom("shr("+index.Name()+","+iv.Name()+")"))
-					_, p, op := condCutOf(info, is.Cond, nil)
+					// (a flag defined in the if's own init, or once before it, is read as its definition)
+					condE := is.Cond
+					neg := false
+					for {
+						u, ok := ast.Unparen(condE).(*ast.UnaryExpr)
+						if !ok || u.Op != token.NOT {
+							break
+						}
+						neg, condE = !neg, u.X
+					}
+					if cid, ok := ast.Unparen(condE).(*ast.Ident); ok {
+						if ia, ok := is.Init.(*ast.AssignStmt); ok && len(ia.Lhs) == 1 && len(ia.Rhs) == 1 {
+							if lid, ok := ia.Lhs[0].(*ast.Ident); ok && info.ObjectOf(lid) == info.ObjectOf(cid) {
+								condE = ia.Rhs[0]
+							}
+						} else if d, ok := singleDefs(info, fd.Body)[info.ObjectOf(cid)]; ok && d.pos == 0 && d.rhs != nil {
+							condE = d.rhs
+						}
+					}
+					if neg {
+						ne := &ast.UnaryExpr{Op: token.NOT, X: condE, OpPos: condE.Pos()}
+						info.Types[ne] = info.Types[condE]
+						condE = ne
+					}
+					_, p, op := condCutOf(info, condE, nil)
 					holds := func(bit int64) (bool, bool) {
 						if p == nil || len(p) > 2 {
 							return false, false
@@ -381,10 +413,26 @@ func ruleNumericHelpers(c *Ctx) {
 						if !ok || len(as.Lhs) != 1 || len(as.Rhs) != 1 || !isObj(as.Lhs[0], acc) {
 							return "?"
 						}
+						ldefs := singleDefs(info, fd.Body)
+						kind := func(e ast.Expr) string {
+							if se, ok := ast.Unparen(e).(*ast.SliceExpr); ok {
+								e = se.X
+							}
+							if isObj(e, acc) {
+								return "value"
+							}
+							// branch[i], or a local that names it (sibling := branch[i])
+							e = resolveLocal(info, e, ldefs, 2)
+							if ix, ok := ast.Unparen(e).(*ast.IndexExpr); ok && isObj(ix.X, branch) && isObj(ix.Index, iv) {
+								return "sibling"
+							}
+							return "?"
+						}
+						// the two halves handed to the hash: append(a, b...) or a two-argument helper of the package
 						var app *ast.CallExpr
 						ast.Inspect(as.Rhs[0], func(k ast.Node) bool {
-							if cl, ok := k.(*ast.CallExpr); ok {
-								if id, ok := cl.Fun.(*ast.Ident); ok && id.Name == "append" && len(cl.Args) == 2 {
+							if cl, ok := k.(*ast.CallExpr); ok && len(cl.Args) == 2 && app == nil {
+								if kind(cl.Args[0]) != "?" && kind(cl.Args[1]) != "?" {
 									app = cl
 								}
 							}
@@ -393,22 +441,12 @@ func ruleNumericHelpers(c *Ctx) {
 						if app == nil {
 							return "?"
 						}
-						kind := func(e ast.Expr) string {
-							if se, ok := ast.Unparen(e).(*ast.SliceExpr); ok {
-								e = se.X
-							}
-							if isObj(e, acc) {
-								return "value"
-							}
-							if ix, ok := ast.Unparen(e).(*ast.IndexExpr); ok && isObj(ix.X, branch) && isObj(ix.Index, iv) {
-								return "sibling"
-							}
-							return "?"
-						}
 						return kind(app.Args[0]) + "," + kind(app.Args[1])
 					}
 					a, b := order(is.Body), order(is.Else)
 					switch {
+					case strings.Contains(a+b, "?"):
+						unread = append(unread, "what is hashed on the two sides is not written as the node and the branch element of this level")
 					case !ok1 || !ok0 || h1 == h0:
 						probs = append(probs, "the side is not chosen by bit "+iv.Name()+" of the index (`"+types.ExprString(is.Cond)+"`)")
 					case h1 && a == "sibling,value" && b == "value,sibling", h0 && a == "value,sibling" && b == "sibling,value":
@@ -418,7 +456,9 @@ func ruleNumericHelpers(c *Ctx) {
 				}
 			}
 		}
-		if len(probs) == 0 {
+		if len(probs) == 0 && len(unread) > 0 {
+			c.unm("VerifyMerkleBranch.fold", fd.Pos(), "VerifyMerkleBranch: %s", strings.Join(unread, "; "))
+		} else if len(probs) == 0 {
 			c.ok("VerifyMerkleBranch.fold", fd.Pos(), "folds levels 0..depth-1, index bit selects the side, compares with the root")
 		} else {
 			c.bad("VerifyMerkleBranch.fold", fd.Pos(), "VerifyMerkleBranch: %s", strings.Join(probs, "; "))
